@@ -14,6 +14,8 @@
      * space independent of the number of repetitions, in the form: two traces from the initial
        state with the same peak of blocks in use end with the same frontier; instantiated with
        setup ++ n1 x body and setup ++ n2 x body                             [C10_loop_space_constant, C10_loop_space_constant_iter]
+       and: from any reachable state whose frontier stands at peak + 1 blocks, a continuation
+       that stays within the peak leaves the frontier where it is           [C10_frontier_stable_after_peak]
        Relation to the property text: "a computation that repeatedly builds and drops structures"
        has a peak of simultaneously reachable blocks that does not depend on the number of
        repetitions (that is a fact about the program, given here as the hypotheses peak_bound /
@@ -75,3 +77,13 @@ Theorem C10_loop_space_constant_iter :
     frontier (fst (grun (setup ++ iterate n2 body) (init base, []))).
 Proof. exact loop_space_constant_iter. Qed.
 Print Assumptions C10_loop_space_constant_iter.
+
+(* the form "an iteration that stays within a peak already reached does not move the frontier" *)
+Theorem C10_frontier_stable_after_peak :
+  forall base (pk : nat) ops s R hl fl cl,
+    InvA base s R hl fl cl -> pre_trace s R ops ->
+    (forall sr n, In sr (states ops (s, R)) -> in_use base sr n -> (n <= pk)%nat) ->
+    frontier s - base = (Z.of_nat pk + 1) * BLOCK ->
+    frontier (fst (grun ops (s, R))) = frontier s.
+Proof. exact frontier_stable_after_peak. Qed.
+Print Assumptions C10_frontier_stable_after_peak.
